@@ -305,7 +305,7 @@ CLAIMED = {
               "that is USED (standard or legacy key) leaves room for a pellet, radial zones of positive thickness inside the "
               "pellet, porosities and weight fractions in range, a finite positive porosity correction; tied to the real "
               "check_fuel_model (verdict and error kind).  PARTIAL: the model is tied to the real reader by differential classification on valid "
-              "generated inputs and single-fault perturbations (37 fault classes across the input keys); independently every "
+              "generated inputs and single-fault perturbations (38 fault classes across the input keys); independently every "
               "invalid class must end in SystemExit before any temperature is computed and every valid generated input must "
               "be set up and swept (60 planes) without exception or hang; a single-key perturbation sweep (every numeric "
               "leaf of the input incl. FuelModel / PinModel / SpacerGrid, four extreme values each) must end in a clean "
